@@ -61,9 +61,10 @@ func c07NoShortcut(c *Ctx, r *RuleResult) {
 	used := map[string]bool{}
 	for _, fn := range fns {
 		nCheck := 0
+		nNeutral := 0
 		var classify func(g *ssa.Function, owner *ssa.Function, depth int)
 		classify = func(g *ssa.Function, owner *ssa.Function, depth int) {
-			headers, _ := loopsOf(g)
+			headers, bodiesOf := loopsOf(g)
 			isHeader := map[*ssa.BasicBlock]bool{}
 			for _, h := range headers {
 				isHeader[h] = true
@@ -95,6 +96,12 @@ func c07NoShortcut(c *Ctx, r *RuleResult) {
 						continue
 					}
 				}
+				// a branch both sides of which run the same checks before the function returns or the enclosing loop
+				// iterates does not decide whether checks run
+				if g == owner && sameChecksAhead(b, bodiesOf) {
+					nNeutral++
+					continue
+				}
 				desc := canonDispatch(guardDesc(Cond{V: ifi.Cond, True: true}))
 				key := owner.Name() + " | " + desc
 				if why, ok := c07Dispatch[owner.Name()][desc]; ok {
@@ -110,6 +117,9 @@ func c07NoShortcut(c *Ctx, r *RuleResult) {
 		classify(fn, fn, 0)
 		if nCheck > 0 {
 			r.OK(fmt.Sprintf("%s: %d checks", p.FuncName(fn), nCheck), "each has a side that can only fail")
+		}
+		if nNeutral > 0 {
+			r.OK(fmt.Sprintf("%s: %d branches with the same checks ahead on both sides", p.FuncName(fn), nNeutral), "they do not decide whether checks run")
 		}
 	}
 }
@@ -292,4 +302,49 @@ func c07NothingNil(c *Ctx, r *RuleResult) {
 	if n == 0 {
 		r.AnchorLost("registrations into the schema's maps and relations in package validator")
 	}
+}
+
+// sameChecksAhead: the two successors of b reach the same set of checks (branches one side of which can only fail)
+// before the function returns or a loop that contains b iterates.
+func sameChecksAhead(b *ssa.BasicBlock, bodies map[*ssa.BasicBlock]map[*ssa.BasicBlock]bool) bool {
+	if len(b.Succs) != 2 {
+		return false
+	}
+	blockedHdr := map[*ssa.BasicBlock]bool{}
+	for h, body := range bodies {
+		if body[b] {
+			blockedHdr[h] = true
+		}
+	}
+	ahead := func(s *ssa.BasicBlock) (map[*ssa.BasicBlock]bool, bool) {
+		out := map[*ssa.BasicBlock]bool{}
+		succeeds := false
+		if blockedHdr[s] {
+			return out, false
+		}
+		for x := range reachAvoiding(s, func(y *ssa.BasicBlock) bool { return blockedHdr[y] }, nil) {
+			if _, ok := x.Instrs[len(x.Instrs)-1].(*ssa.If); ok {
+				for _, sc := range x.Succs {
+					if failOnly(sc) {
+						out[x] = true
+					}
+				}
+			}
+			if ret, ok := x.Instrs[len(x.Instrs)-1].(*ssa.Return); ok && !isFailureReturn(ret) {
+				succeeds = true
+			}
+		}
+		return out, succeeds
+	}
+	a0, _ := ahead(b.Succs[0])
+	a1, _ := ahead(b.Succs[1])
+	if len(a0) != len(a1) {
+		return false
+	}
+	for x := range a0 {
+		if !a1[x] {
+			return false
+		}
+	}
+	return true
 }
